@@ -52,6 +52,7 @@ FLOWS = {
     "trace": _unit_rate(_mat([[0.8, 0.5, 0.0], [-0.3, 0.1, 0.4], [0.2, -0.6, -0.3]])),
     "rot": _mat([[0, -1, 0], [1, 0, 0], [0, 0, 0]]),  # pure vorticity: zero strain rate
     "pure_rot": _mat([[1, -0.7, 0], [0.7, -1, 0], [0, 0, 0]]),  # diagonal strain rate plus a rigid rotation about z
+    "dil_rot": _mat([[-1, -0.6, 0], [0.6, -1, 0], [0, 0, -1]]),  # uniform compaction (isotropic strain rate) plus a rigid rotation
     "ss_int": _mat([[0, 0, 1], [0, 0, 0], [0, 0, 0]]),  # handed to the library as an INTEGER-typed array
 }
 PN_CLASSES = {0: (1.5, 3.5), 1: (1.0, 2.0), 2: (2.0, 5.0)}  # (p, n) classes of par.x[2]
@@ -59,7 +60,9 @@ DT = 0.2  # time span of one update call at unit strain rate (strain increment 0
 
 
 # time- and position-dependent commuting families L = g * M  (closed form: expm(M * int g))
-TDEP = {"tdep": ("gen3d", lambda t, x: 1.0 + 0.5 * t), "xdep": ("trace", lambda t, x: 1.0 + 0.25 * x[0])}
+# "spinup": the flow starts from REST - the velocity gradient is exactly zero at t = 0 (the start of the first update)
+# and grows linearly afterwards, g(t) = 2 t
+TDEP = {"tdep": ("gen3d", lambda t, x: 1.0 + 0.5 * t), "xdep": ("trace", lambda t, x: 1.0 + 0.25 * x[0]), "spinup": ("gen3d", lambda t, x: 2.0 * t)}
 XVEL = np.array([0.7, -0.2, 0.1])  # pathline x(t) = XVEL * t for position-dependent flows
 
 
@@ -90,6 +93,9 @@ def flow_integral(fl, t0, t1, rate=1.0):
     if fl == "xdep":
         s0, s1 = t0 * rate, t1 * rate
         return FLOWS["trace"] * ((s1 - s0) + 0.125 * XVEL[0] * (s1**2 - s0**2))
+    if fl == "spinup":
+        s0, s1 = t0 * rate, t1 * rate
+        return FLOWS["gen3d"] * (s1**2 - s0**2)
     return FLOWS[fl] * rate * (t1 - t0)
 
 
